@@ -53,6 +53,9 @@ def register(R):
     R.lock_levels = LOCK_RULES['levels']
 
     # ------------------------------------------------------------------ CountCallbackInvoker (K2)
+    # (it decides when the final IO task of a ranged download -- rename / close -- is submitted: fired early, a partial
+    #  file is published although the future succeeds (C02, C06); never fired, the transfer hangs (C04))
+    CCI_PROPS = ['C04', 'C02', 'C06']
     R.add_fields(CCI, _lock=LockT(), _callback=ExtT('invoker_callback'), _count=Int, _is_finalized=Bool)
     R.external('invoker_callback', **{'()': ExtSpec(raises=('Exception',), blocking=False)})
 
@@ -62,13 +65,13 @@ def register(R):
                   'finalized_is_permanent': z3.Implies(b2z(old.f(ref, '_is_finalized')), b2z(new.f(ref, '_is_finalized'))),
                   'no_increment_after_finalize': z3.Implies(b2z(old.f(ref, '_is_finalized')),
                                                             new.f(ref, '_count') <= old.f(ref, '_count')),
-              }, props=['C04'])
+              }, props=CCI_PROPS)
     SH = ObjT(CCI, shared=True)
 
     def fired(c):
         return [e for e in c.trace if e.kind == 'ext' and e.name == 'invoker_callback.()']
 
-    R.contract(f'{CCI}.increment', props=['C04'], self_type=SH, old_at='acquire', params={},
+    R.contract(f'{CCI}.increment', props=CCI_PROPS, self_type=SH, old_at='acquire', params={},
                ensures=lambda c: {'count_plus_one': c.newf('_count') == c.oldf('_count') + 1,
                                   'was_not_finalized': z3.Not(b2z(c.oldf('_is_finalized'))),
                                   'callback_not_fired': B(len(fired(c)) == 0)},
@@ -83,7 +86,7 @@ def register(R):
                 'fires_exactly_when_finalized_count_reaches_zero': z3.If(z3.And(fin, n == 0), B(len(fired(c)) == 1), B(len(fired(c)) == 0)),
                 'finalized_untouched': b2z(c.newf('_is_finalized')) == fin}
 
-    R.contract(f'{CCI}.decrement', props=['C04'], self_type=SH, old_at='acquire', params={},
+    R.contract(f'{CCI}.decrement', props=CCI_PROPS, self_type=SH, old_at='acquire', params={},
                ensures=dec_post,
                raises={'RuntimeError': lambda c: {'only_at_zero': c.oldf('_count') == 0,
                                                   'callback_not_fired': B(len(fired(c)) == 0)},
@@ -91,7 +94,7 @@ def register(R):
                            b2z(c.oldf('_is_finalized')), c.newf('_count') == 0, B(len(fired(c)) == 1))}},
                raise_when={'RuntimeError': lambda c: None})
 
-    R.contract(f'{CCI}.finalize', props=['C04'], self_type=SH, old_at='acquire', params={},
+    R.contract(f'{CCI}.finalize', props=CCI_PROPS, self_type=SH, old_at='acquire', params={},
                ensures=lambda c: {'finalized': b2z(c.newf('_is_finalized')),
                                   'count_untouched': c.newf('_count') == c.oldf('_count'),
                                   'fires_iff_count_is_zero': z3.If(c.newf('_count') == 0, B(len(fired(c)) == 1), B(len(fired(c)) == 0))},
